@@ -74,6 +74,13 @@ def exec_shard():
     prop = load_prop(spec['prop'])
     ctx = core.Ctx(spec['prop'], spec['tier'], spec['seed'], spec.get('shard', 0))
     ctx.run_case = lambda term, fn, **k: run_case(prop, ctx, term, fn, **k)
+    cov = None
+    if os.environ.get('VERIF_COV_DIR'):
+        # line coverage of the library under the monitors (tools/coverage_report.py): which anchored code the workload never drives
+        import coverage
+        cov = coverage.Coverage(data_file=os.path.join(os.environ['VERIF_COV_DIR'], '%s.%s.cov' % (spec['prop'], spec.get('shard', 0))),
+                                include=[os.path.join(env.SRC, 'pyg_base', '*')], branch=True)
+        cov.start()
     try:
         with core.Watchdog(spec.get('watchdog', 600)):
             if hasattr(prop, 'setup'):
@@ -83,6 +90,8 @@ def exec_shard():
         ctx.inconclusive.append('watchdog: %s (case=%s)' % (e, core._short(ctx.current, 400)))
     except Exception as e:
         ctx.harness_errors.append({'case': ctx.current, 'trace': traceback.format_exc()[-2500:]})
+    if cov is not None:
+        cov.stop(); cov.save()
     sys.stdout.write('\n' + MARK + json.dumps(ctx.result(), default=str) + '\n')
     sys.stdout.flush()
 
